@@ -78,6 +78,8 @@ pub struct MutationField {
     pub field_type: FieldType,
     pub field_value: MutationFieldValue,
     pub is_default_filled: bool,
+    //true when the field was copied from the parent entity by propagate_room
+    pub is_propagated: bool,
 }
 impl Default for MutationField {
     fn default() -> Self {
@@ -92,6 +94,7 @@ impl MutationField {
             field_type: FieldType::Boolean,
             field_value: MutationFieldValue::Value(ParamValue::Boolean(true)),
             is_default_filled: false,
+            is_propagated: false,
         }
     }
 }
@@ -204,7 +207,10 @@ impl MutationParser {
     //propagate the room definition to sub entities to avoid having to write the room everywhere in the query
     //
     fn propagate_room(entity: &mut EntityMutation) -> Result<(), Error> {
-        let room_field = entity.fields.get(ROOM_ID_FIELD).cloned();
+        let room_field = entity.fields.get(ROOM_ID_FIELD).cloned().map(|mut f| {
+            f.is_propagated = true;
+            f
+        });
 
         for field in &mut entity.fields {
             if !field.0.eq(ROOM_ID_FIELD) {
@@ -260,6 +266,7 @@ impl MutationParser {
                             field_type: model_field.field_type.clone(),
                             field_value: MutationFieldValue::Value(default.clone()),
                             is_default_filled: true,
+                            is_propagated: false,
                         };
                         entity_mutation
                             .fields
